@@ -508,6 +508,35 @@ func c10Scenarios() []c10Scenario {
 		cmd := c.Move(imap.SeqSetNum(1, 2), "Archive")
 		return func() error { _, err := cmd.Wait(); return err }
 	}, true, "OK MOVE completed", "* OK [COPYUID 1 1:2 5:6] moved", "* 2 EXPUNGE", "* 1 EXPUNGE")
+	// MOVE on a server without the MOVE capability: Client.Move pipelines COPY (T1), STORE
+	// +FLAGS.SILENT \Deleted (T2) and EXPUNGE (T3); MoveCommand.Wait (phase M1) waits for COPY, then
+	// closes the STORE and the EXPUNGE command, and reports the first error.
+	moveEmulated := func(name string, quick bool, ok1, ok3 bool, text3 string) {
+		add(name, quick, one, func(b *c10B, mode string) {
+			b.greetCaps("IMAP4rev1")
+			b.phaseRet('G', 0, func(x *c10Ctx) error { return x.c.WaitGreeting() })
+			n1, n2, n3 := b.cmd("s"), b.cmd("f"), b.cmd("e")
+			var cmd *imapclient.MoveCommand
+			b.phaseRet('i', n1, func(x *c10Ctx) error { cmd = x.c.Move(imap.SeqSetNum(1, 2), "Archive"); return nil })
+			b.phaseRet('i', n2, func(x *c10Ctx) error { return nil }) // issued by Move itself
+			b.phaseRet('i', n3, func(x *c10Ctx) error { return nil })
+			b.R(3)
+			if ok1 {
+				b.tagged(n1, true, "OK [COPYUID 1 1:2 5:6] done")
+			} else {
+				b.tagged(n1, false, "NO [TRYCREATE] no such mailbox")
+			}
+			b.tagged(n2, true, "OK STORE done")
+			b.line(n3, "* 2 EXPUNGE")
+			b.line(n3, "* 1 EXPUNGE")
+			b.tagged(n3, ok3, text3)
+			b.phase('M', n1, func(x *c10Ctx) error { _, err := cmd.Wait(); return err })
+		})
+	}
+	moveEmulated("move-emulated", true, true, true, "OK EXPUNGE done")
+	moveEmulated("move-emulated-expunge-no", true, true, false, "NO cannot expunge")
+	moveEmulated("move-emulated-expunge-bad", false, true, false, "BAD what")
+	moveEmulated("move-emulated-copy-no", false, false, true, "OK EXPUNGE done")
 	add("pipeline2", true, one, func(b *c10B, mode string) {
 		c10Greeting(b)
 		n1, n2 := b.cmd("s"), b.cmd("s")
